@@ -27,7 +27,8 @@ ASSUMPTIONS = [
     "times are multiples of MIN_TD, so x+MIN_TD is the immediate successor of x",
 ]
 DECIDED = ["a cycle time term", "b wait loop", "c stop", "d end of run", "e due wall-clock alarms", "f push wake (shared with C16.d)",
-           'g stop flag tested again after the blocking advance (= C02.d)', 'h push phase folds the future slot of every push-source node it did not run (= C02.c)']
+           'g stop flag tested again after the blocking advance (= C02.d)', 'h push phase folds the future slot of every push-source node it did not run (= C02.c)',
+           'i timer survives a visit in which the node did not run (= C18.e)', 'j conflating pending flag (= C16.b2)']
 NOT_DECIDED = ["timing / latency", "OS scheduling", "host clock monotonicity"]
 
 
